@@ -137,6 +137,7 @@ def run_generic(ctx, which, module, vo, files, what):
     st = coq.proof_stage(ctx, module, vo, files)
     finish_proof(ctx, st)
     reps = 6 if ctx.tier == 'quick' else 400
+    if getattr(ctx, 'changed', None) and ctx.tier == 'quick': reps = 30      # sources differ from the validated ones: explore more
     allm = []; hist = {}
     outs = {}
     for b in ('ark', 'min'):
@@ -166,7 +167,7 @@ def run_generic(ctx, which, module, vo, files, what):
     if not st['regen_ok']: broken.append(('translator failed', {'stage': 'translate', 'log': st.get('regen_log', '')[-2000:]}))
     elif not st['make_ok']: broken.append(('Coq proof obligation no longer checks: %s' % st['bad_file'], {'stage': 'proof', 'theorem_file': st['bad_file'], 'coq_log': st['make_log'][-3000:]}))
     for m in allm[:40]: broken.append(('model and implementation disagree on: %s' % m['line'][:160], {'stage': 'correspondence', **m}))
-    if broken:
+    if broken or getattr(ctx, 'changed', None):
         fails = []
         for b, (lines, hout) in outs.items(): fails += predicate_search(ctx, b, lines, hout, which)
         if which == 'C11':
